@@ -70,6 +70,7 @@ func (p *clientStreamProcessorMPEGTS) initialize() {
 func (p *clientStreamProcessorMPEGTS) run(ctx context.Context) error {
 	for {
 		seg, ok := p.segmentQueue.pull(ctx)
+		verifYield("client.processor.afterPull")
 		if !ok {
 			return fmt.Errorf("terminated")
 		}
@@ -285,11 +286,13 @@ func (p *clientStreamProcessorMPEGTS) initializeTrackProcessors(
 		timeConv.initialize()
 
 		p.client.setLeadingTimeConv(timeConv)
+		verifYield("client.leadingTimeConv.set")
 	} else {
 		ok := p.client.waitLeadingTimeConv(ctx)
 		if !ok {
 			return fmt.Errorf("terminated")
 		}
+		verifYield("client.leadingTimeConv.got")
 
 		_, ok = p.client.getLeadingTimeConv().(*clientTimeConvMPEGTS)
 		if !ok {
